@@ -6,6 +6,7 @@ import (
 	"errors"
 	"fmt"
 	"net"
+	"strings"
 	"time"
 
 	"nhooyr.io/websocket"
@@ -492,6 +493,10 @@ type c06RCase struct {
 	Code       int    `json:"code"`        // used when PayloadLen >= 2
 	Byte       int    `json:"byte"`        // the single byte when PayloadLen == 1
 	Position   string `json:"position"`    // before | between | after | in-fragment
+	// RKind: 0 ASCII reason; 1 three-byte runes; 2 three-byte runes cut after n bytes
+	// (ends inside a character unless n is a multiple of 3); 3 bytes >= 0x80 (no
+	// valid UTF-8 at all): what a peer holding a Go string may send
+	RKind int `json:"reason_kind,omitempty"`
 }
 
 var c06Positions = []string{"before", "between", "after", "in-fragment"}
@@ -501,8 +506,11 @@ var c06OneBytes = []int{0x00, 0x03, 0xe8, 0xff}
 var c06RecvRepCodes = []int{1000, 1001, 1011, 3000, 4999, 1005, 999}
 
 func c06ReceiverTotal() int {
-	return 65536*2*4*2 + (1+len(c06OneBytes))*4*2 + 124*len(c06RecvRepCodes)*4*2
+	return 65536*2*4*2 + (1+len(c06OneBytes))*4*2 + 124*len(c06RecvRepCodes)*4*2 + c06RecvKindCases
 }
+
+// reasons that are not ASCII: lengths 1..123 x kinds 1..3 x 2 codes x positions x roles
+const c06RecvKindCases = 123 * 3 * 2 * 4 * 2
 
 func c06ReceiverCase(i int) c06RCase {
 	sweep := 65536 * 2 * 4 * 2
@@ -527,7 +535,15 @@ func c06ReceiverCase(i int) c06RCase {
 		return c06RCase{Client: client, PayloadLen: 1, Byte: c06OneBytes[i-1], Position: pos}
 	}
 	i -= 1 + len(c06OneBytes)
-	return c06RCase{Client: client, PayloadLen: 2 + i%124, Code: c06RecvRepCodes[i/124], Position: pos}
+	if i < 124*len(c06RecvRepCodes) {
+		return c06RCase{Client: client, PayloadLen: 2 + i%124, Code: c06RecvRepCodes[i/124], Position: pos}
+	}
+	i -= 124 * len(c06RecvRepCodes)
+	n := 1 + i%123
+	i /= 123
+	kind := 1 + i%3
+	i /= 3
+	return c06RCase{Client: client, PayloadLen: 2 + n, Code: []int{1000, 4999}[i%2], Position: pos, RKind: kind}
 }
 
 type c06Msg struct {
@@ -552,7 +568,21 @@ func c06Stream(cs c06RCase) (in []byte, before []c06Msg, reason string) {
 	case 2:
 		payload = frame.ClosePayload(cs.Code, "")
 	default:
-		reason = mxASCII(cs.PayloadLen-2, cs.Code)
+		n := cs.PayloadLen - 2
+		switch cs.RKind {
+		case 1:
+			reason = c06Reason(n, 3, cs.Code&0xff)
+		case 2:
+			reason = strings.Repeat("\u20ac", n/3+1)[:n]
+		case 3:
+			b := make([]byte, n)
+			for i := range b {
+				b[i] = byte(0x80 + (i*37+cs.Code)%0x80)
+			}
+			reason = string(b)
+		default:
+			reason = mxASCII(n, cs.Code)
+		}
 		payload = frame.ClosePayload(cs.Code, reason)
 	}
 	cl := frame.Ctl(frame.OpClose, masked, payload)
